@@ -210,6 +210,18 @@ def resume_run(world: World, case: dict, files: dict, base: str, rng: dict | Non
     )
 
 
+def compare_resumed(case: dict, ref: M.Outcome, rs: M.Outcome, rng: dict | None) -> list[str]:
+    """Resumed results vs the uninterrupted reference.  When the harness could not learn the RNG state that belongs to
+    the snapshot (the file did not become visible through an operation it intercepts), the resumed incarnation ran on
+    another random stream: values that depend on it - every value of a quantum-jump run, sampled bit strings otherwise
+    - are then not comparable run by run, and only tags, times and atom order are."""
+    if rng is not None:
+        return R.compare(ref.results, rs.results)
+    noisy = bool((case["cfg"].get("noise") or {}).keys() - {"state_prep_error", "p_false_pos", "p_false_neg", "runs", "samples_per_run"}) or bool((case["cfg"].get("noise") or {}).get("state_prep_error"))
+    skip = tuple(ref.results["tags"]) if noisy else tuple(t for t in ref.results["tags"] if t == "statistics" or t.startswith("bitstrings"))
+    return R.compare(ref.results, rs.results, skip_values=skip)
+
+
 def stage_of(w: dict, total_pcalls: int) -> str:
     if w["pcall"] >= total_pcalls and not w["inside"]:
         return "final"
